@@ -592,3 +592,59 @@ def bare_rex_rule(chk, prog, rule="BAREREX"):
                     "the bare-REX test of the ModRM.reg operand %s is reached on every path through %s" % (regop, fn),
                     "nested in %s" % [loc_str(x) for x in nested])
     chk.floor("bare-REX tests", sum(len(v) for v in by_op.values()), 2)
+
+
+# ---- implicit size keywords only with a memory operand ---------------------------------------------------------------------
+def implicit_keyword_rule(chk, prog, rule="KWMEM"):
+    """The encoder sets a size keyword (byte/word/dword) implicitly from the register operand so that a memory operand gets
+    its width.  With a register-only form the keyword must stay clear (the REX derivation takes the keyword branch otherwise and
+    skips its register tests).  Every call of a function that stores `true` into one of these keyword fields outside the
+    tokeniser is reached only where a memory operand is known to exist: `<instr>->mem_disp` is true, or a call that returns NA
+    exactly when mem_disp is false returned something else."""
+    from . import guards as GD
+    lib = prog.lib_functions()
+    ce = ConstEval(prog)
+    KW = ("is_byte", "is_word", "is_dword")
+    setters = []
+    for fn, f in lib.items():
+        if any(c.get("kind") == "CallExpr" and callee_name(c) in ("strtok_r", "strstr") for c in walk(prog.body(f))):
+            continue        # the tokeniser sets the explicit keywords
+        for m in walk(prog.body(f)):
+            if m.get("kind") == "BinaryOperator" and m.get("opcode") == "=":
+                l = strip(kids(m)[0], casts=True)
+                if l.get("kind") == "MemberExpr" and l.get("name") in KW and ce.try_eval(kids(m)[1]) == 1:
+                    setters.append(fn)
+                    break
+    setters = sorted(set(setters))
+    # functions that return NA exactly when there is no memory operand
+    na = prog.macro_value("NA") if hasattr(prog, "macro_value") else -1
+    mem_tests = {}
+    for fn, f in lib.items():
+        body = kids(prog.body(f))
+        if not body or body[0].get("kind") != "IfStmt":
+            continue
+        c = strip(kids(body[0])[0])
+        then = kids(body[0])[1]
+        neg_mem = c.get("kind") == "UnaryOperator" and c.get("opcode") == "!" and \
+            strip(kids(c)[0], casts=True).get("kind") == "MemberExpr" and strip(kids(c)[0], casts=True).get("name") == "mem_disp"
+        first_ret = [r for r in walk(then) if r.get("kind") == "ReturnStmt" and kids(r)]
+        if not (neg_mem and first_ret):
+            continue
+        c0 = ce.try_eval(kids(first_ret[0])[0])
+        same = [r for r in walk(prog.body(f)) if r.get("kind") == "ReturnStmt" and kids(r) and ce.try_eval(kids(r)[0]) == c0]
+        if c0 is not None and len(same) == 1:
+            mem_tests[fn] = c0          # returns c0 exactly when there is no memory operand
+    n = 0
+    for fn in sorted(lib):
+        for call, facts in GD.facts_at_calls(prog, fn):
+            if callee_name(call) not in setters or fn in setters:
+                continue
+            n += 1
+            ok = GD.holds(facts, lambda t: t.endswith("->mem_disp") or t.endswith(".mem_disp"), 0, False) or \
+                any(GD.holds(facts, lambda t, g=g: t.startswith(g + "("), c0, False) for g, c0 in mem_tests.items())
+            chk.require(ok, rule, "%s/%s/%s@%s" % (rule, fn, callee_name(call), loc_str(call)), loc_str(call),
+                        "%s() (sets an implicit size keyword) is called only where a memory operand is known to exist" % callee_name(call),
+                        "facts at the call: %s" % sorted("%s %s %s" % (t, "==" if eq else "!=", c) for t, c, eq in facts)[:6])
+    chk.analysed["implicit_keyword_setters"] = setters
+    chk.analysed["memory_operand_tests"] = sorted(mem_tests)
+    chk.floor("calls of implicit keyword setters", n, 3)
